@@ -1359,7 +1359,13 @@ impl Primitives for InvocationCtx<'_> {
         self.v.primitives().hash(hasher, data)
     }
     fn hash_64(&self, hasher: SupportedHashes, data: &[u8]) -> ([u8; 64], usize) {
-        self.v.primitives().hash_64(hasher, data)
+        // NB: /repo's FakePrimitives::hash_64 returns the multihash *code* as the digest length
+        // (27 for keccak-256); compute it from `hash` instead, as the FVM syscall does.
+        let d = self.v.primitives().hash(hasher, data);
+        let mut buf = [0u8; 64];
+        let n = d.len().min(64);
+        buf[..n].copy_from_slice(&d[..n]);
+        (buf, n)
     }
     fn recover_secp_public_key(
         &self,
